@@ -1,8 +1,9 @@
+import Ebu.Proofs.ConcTrace
 import Ebu.Spec.Flow
 import Ebu.Proofs.Shutdown
 import Ebu.Model.Inflight
 import Ebu.Generated.Consts
-import Ebu.Props.C03
+import Ebu.Props.C03Facts
 import Ebu.Spec.Conc
 import Ebu.Proofs.Conc
 /-!
@@ -83,5 +84,55 @@ theorem flow_shutdown_shape : Ebu.Flow.shutdownShape = true := by decide +kernel
 
 /-- OBLIGATION: `inflight.wait` re-checks the count in a loop around `cond.Wait`, `inflight.done` broadcasts when the count reaches zero (M2w's `Wake.broadcast`) -/
 theorem flow_wait_rechecks_and_done_broadcasts : Ebu.Flow.condVarShape = true := by decide +kernel
+
+/-! ### every asynchronous delivery runs exactly once (M2 with its trace, `Ebu/Spec/ConcTrace.lean`) -/
+
+/-- an async goroutine performs at most one asynchronous delivery – the one it was started for (right registration,
+type and value) – under every schedule -/
+theorem async_delivery_at_most_once (progs : List (List Ebu.Conc.Op)) (x : Ebu.Conc.SysT) (h : Ebu.Conc.ReachableT progs x)
+    (i : Nat) (th : Ebu.Conc.Thread) (j : Ebu.Conc.Job) (hi : x.s.ths[i]? = some th) (hj : th.job = some j) :
+    Ebu.Conc.asyncEntersOf i x.tr = [] ∨ Ebu.Conc.asyncEntersOf i x.tr = [Ebu.Conc.Obs.enter j.reg.rid j.ty j.v true] :=
+  Ebu.Conc.async_at_most_once h i th j hi hj
+
+/-- … and once the goroutine has finished it has performed it exactly once, provided the publish context is still live
+(contexts are only ever cancelled, so "live now" means "live throughout") -/
+theorem async_delivery_exactly_once (progs : List (List Ebu.Conc.Op)) (x : Ebu.Conc.SysT) (h : Ebu.Conc.ReachableT progs x)
+    (i : Nat) (th : Ebu.Conc.Thread) (j : Ebu.Conc.Job) (hi : x.s.ths[i]? = some th) (hj : th.job = some j)
+    (hd : th.pc = .done) (hl : x.s.sh.live j.ctx = true) :
+    Ebu.Conc.asyncEntersOf i x.tr = [Ebu.Conc.Obs.enter j.reg.rid j.ty j.v true] :=
+  Ebu.Conc.async_exactly_once_when_done h i th j hi hj hd hl
+
+/-- every goroutine announced by the publisher exists, and the goroutines of the test program never perform an
+asynchronous delivery themselves -/
+theorem spawned_goroutines_exist (progs : List (List Ebu.Conc.Op)) (x : Ebu.Conc.SysT) (h : Ebu.Conc.ReachableT progs x) :
+    (x.tr.filter (fun p => match p.2 with | .spawned _ => true | _ => false)).length =
+      (x.s.ths.filter (fun th => th.job.isSome)).length :=
+  Ebu.Conc.spawned_count h
+
+/-- LIVENESS at the end of every maximal run: under the rank hypothesis (the one documented exception of C03) a state
+from which no goroutine can step is quiescent – every goroutine has finished, nothing is in flight – and every
+asynchronous delivery whose publish context is live has run exactly once; in particular a goroutine blocked in `Wait`
+is never left behind -/
+theorem maximal_run_delivers_everything (ρ : Nat → Nat) (progs : List (List Ebu.Conc.Op)) (hr : Ebu.Conc.Ranked ρ progs)
+    (x : Ebu.Conc.SysT) (h : Ebu.Conc.ReachableT progs x) (hmax : ¬ x.s.canStep) :
+    x.s.allDone ∧ x.s.sh.inflight = 0 ∧
+    ∀ i th j, x.s.ths[i]? = some th → th.job = some j → x.s.sh.live j.ctx = true →
+      Ebu.Conc.asyncEntersOf i x.tr = [Ebu.Conc.Obs.enter j.reg.rid j.ty j.v true] :=
+  Ebu.Conc.maximal_run_delivers_everything ρ progs hr h hmax
+
+/-- the traced system is the plain one with bookkeeping: the two reachability notions coincide -/
+theorem trace_is_bookkeeping (progs : List (List Ebu.Conc.Op)) :
+    (∀ x, Ebu.Conc.ReachableT progs x → Ebu.Conc.Reachable progs x.s) ∧
+    (∀ s, Ebu.Conc.Reachable progs s → ∃ tr, Ebu.Conc.ReachableT progs ⟨s, tr⟩) :=
+  ⟨fun _ h => Ebu.Conc.reachableT_reachable h, fun _ h => Ebu.Conc.reachable_has_trace h⟩
+
+/-- why deliveries are counted with `asyncEntersOf`: the goroutine of an async handler also enters the synchronous
+handlers of what that handler publishes -/
+theorem nested_sync_entries_are_not_deliveries :
+    ∃ progs x i th j, Ebu.Conc.ReachableT progs x ∧ x.s.ths[i]? = some th ∧ th.job = some j ∧ th.pc = .done ∧
+      x.s.sh.live j.ctx = true ∧
+      ¬(Ebu.Conc.entersOf i x.tr = [] ∨ Ebu.Conc.entersOf i x.tr = [Ebu.Conc.Obs.enter j.reg.rid j.ty j.v true]) ∧
+      Ebu.Conc.asyncEntersOf i x.tr = [Ebu.Conc.Obs.enter j.reg.rid j.ty j.v true] :=
+  Ebu.Conc.entersOf_counterexample
 
 end Ebu.Props.C06
